@@ -15,6 +15,10 @@ open GIV
 class FDefer : Prop where
   oldLast : Gen.TsLife.deferChainsOldLast = true
 
+theorem call_link [F : FDefer] (id : Nat) (ab : Abort) (old : Chain) :
+    (Chain.link id ab old).call = id :: old.call := by
+  simp [Chain.call, Chain.run, F.oldLast]
+
 def LineRes.state : LineRes → SState
   | .ok s | .fatal s | .skipped s | .failNow s | .hang s | .escape s => s
 
@@ -139,10 +143,10 @@ theorem runInv_stepOp [FDefer] (cfg : Cfg) (s : SState) (op : Op) (hi : RunInv s
     split
     · exact hi
     · split <;> exact hi
-  | regDefer id =>
+  | regDefer id ab =>
     obtain ⟨a, b, c, d⟩ := hi
     refine ⟨?_, b, c, d⟩
-    simp only [stepOp, LineRes.state, Chain.call, FDefer.oldLast, if_true, List.reverse_append, List.reverse_cons,
+    simp only [stepOp, LineRes.state, call_link, List.reverse_append, List.reverse_cons,
       List.reverse_nil, List.nil_append, List.cons_append, a]
   | bg name kind neg =>
     simp only [stepOp]
@@ -360,19 +364,19 @@ theorem final_blocks [FDefer] {s : SState} (hi : RunInv s) (pre : List String) (
         exact Or.inl ⟨x, hx, by rw [he]⟩
 
 theorem runInv_start (fs : FS) (env : EnvList) (ids : List Nat) [FDefer] :
-    RunInv ⟨[], env, fs, [], 0, ids.foldl (fun c id => Chain.link id c) Chain.nop, ids, [], false⟩ := by
+    RunInv ⟨[], env, fs, [], 0, ids.foldl (fun c id => Chain.link id .none c) Chain.nop, ids, [], false⟩ := by
   refine ⟨?_, rfl, by simp, by simp⟩
   simp only
   -- the chain built by Setup's Defer calls
   have : ∀ (l : List Nat) (c : Chain) (done : List Nat), c.call = done.reverse →
-      (l.foldl (fun c id => Chain.link id c) c).call = (done ++ l).reverse := by
+      (l.foldl (fun c id => Chain.link id .none c) c).call = (done ++ l).reverse := by
     intro l
     induction l with
     | nil => intro c done h; simpa using h
     | cons i rest ih =>
       intro c done h
       simp only [List.foldl_cons]
-      have := ih (Chain.link i c) (done ++ [i]) (by simp [Chain.call, FDefer.oldLast, h])
+      have := ih (Chain.link i .none c) (done ++ [i]) (by simp [call_link, h])
       simpa using this
   simpa using this ids Chain.nop [] rfl
 
@@ -400,7 +404,7 @@ theorem runScript_spec [FDefer] [F : FRun] (cfg : Cfg) (files : List Entry) (ops
     simp only
     have hi1 := runInv_start fs (initialEnv cfg.host (workdirOf cfg.root cfg.name) cfg.setupEnv) cfg.setupDefers
     generalize hs1 : (⟨[], initialEnv cfg.host (workdirOf cfg.root cfg.name) cfg.setupEnv, fs, [], 0,
-      cfg.setupDefers.foldl (fun c id => Chain.link id c) Chain.nop, cfg.setupDefers, [], false⟩ : SState) = s1 at hi1
+      cfg.setupDefers.foldl (fun c id => Chain.link id .none c) Chain.nop, cfg.setupDefers, [], false⟩ : SState) = s1 at hi1
     have hi2 := runInv_loop cfg ops s1 hi1
     generalize hl : loop cfg ops s1 = r at hi2
     obtain ⟨s2, ex, st⟩ := r
